@@ -126,6 +126,56 @@ def s_unwrap_or(e, st, callee, args, dty):
     return out
 
 
+def canon(e, st, v, depth=0):
+    """canonical text of a symbolic value (for deterministic naming of pure environment functions)"""
+    if depth > 4:
+        return "?"
+    if isinstance(v, Ref):
+        try:
+            return canon(e, st, e.load(st, v.cell, v.path), depth + 1)
+        except Inconclusive:
+            return "&" + str(v.cell)
+    if isinstance(v, Lazy):
+        return v.name
+    if isinstance(v, Int) or isinstance(v, Bool):
+        return str(z3.simplify(v.t))
+    if isinstance(v, Agg):
+        if v.base and not v.fields:
+            return v.base
+        return "%s{%s}" % (type_base(v.ty), ",".join("%s:%s" % (k, canon(e, st, x, depth + 1)) for k, x in sorted(v.fields.items(), key=lambda kv: str(kv[0]))))
+    if isinstance(v, EnumV):
+        return "%s(%s)" % (v.variant, ",".join(canon(e, st, x, depth + 1) for x in v.fields.values()))
+    return repr(v)[:40]
+
+
+def pure(tag):
+    """summary of a side-effect free environment function: the result is a deterministic function of the arguments"""
+    def f(e, st, callee, args, dty):
+        name = "%s(%s)" % (tag, ";".join(canon(e, st, a) for a in args))
+        r = e.make_lazy(name, dty)
+        st.events.append(Event("call", strip_generics(callee), tuple(args), r, len(st.pc), e.site(st), {"pure": tag}))
+        return r
+    return f
+
+
+def s_result_unwrap_or(e, st, callee, args, dty):
+    v, d = args[0], args[1]
+    return [(c, p if ok else d) for c, ok, p in result_variants(e, st, v, dty)]
+
+
+def s_map_err_generic(e, st, callee, args, dty):
+    """Result::map_err keeps the Ok payload; the error is replaced by an unknown value"""
+    v = args[0]
+    if isinstance(v, EnumV) and v.ty == "Result":
+        return v if v.variant == "Ok" else EnumV("Result", "Err", 1, {0: Lazy(sanitize(st.fresh("mapped_err")), "?")})
+    if isinstance(v, Lazy):
+        out = []
+        for c, ok, p in result_variants(e, st, v):
+            out.append((c, EnumV("Result", "Ok", 0, {0: p}) if ok else EnumV("Result", "Err", 1, {0: Lazy(sanitize(st.fresh("mapped_err")), "?")})))
+        return out
+    return NotImplemented
+
+
 def s_identity(e, st, callee, args, dty):
     return args[0]
 
@@ -322,6 +372,8 @@ BASE = {
     r"^(std::option::|core::option::)?Option::(is_some|is_none)$": s_is_some,
     r"^(std::result::|core::result::)?Result::(is_ok|is_err)$": s_is_some,
     r"^(std::option::|core::option::)?Option::unwrap_or$": s_unwrap_or,
+    r"^(std::result::|core::result::)?Result::unwrap_or$": s_result_unwrap_or,
+    r"^(std::result::|core::result::)?Result::map_err$": s_map_err_generic,
     r"^<.* as (std::ops::)?Deref(Mut)?>::deref(_mut)?$": s_deref,
     r"^<.* as (std::cmp::)?Partial(Ord|Eq)(<.*>)?>::(lt|le|gt|ge|eq|ne)$": s_cmp,
     r"^<.* as (std::cmp::)?Ord>::(max|min)$": s_minmax,
